@@ -287,17 +287,20 @@ Definition stored_set (raw : list (list Z)) : clause_set :=
   cs_of_list (map mk_clause (simplify_clauses raw)).
 
 (* build_ddnnf on a .cnf file with header n and clause lines raw: the model is compiled from the
-   file as written; the cache exists only if the stored set is non-empty (Ddnnf::new:
-   `if !clauses.is_empty()`); None = loading panics *)
-Definition load_cnf (loadable : clause_set -> nat -> bool) (raw : list (list Z)) (n : nat)
-  : option dstate :=
+   file as written; HEAD creates the cache only if the stored set is non-empty (Ddnnf::new:
+   `if !clauses.is_empty()`, finding K11; cache_if_empty = false); the proposed repair
+   (repo_patches/F9-empty-cnf-clause-cache.patch) creates it for every CNF input
+   (cache_if_empty = true).  None = loading panics *)
+Definition load_cnf_with (cache_if_empty : bool) (loadable : clause_set -> nat -> bool)
+           (raw : list (list Z)) (n : nat) : option dstate :=
   if loadable raw n then
     Some (mkD (raw, n)
               (match stored_set raw with
-               | [] => None
+               | [] => if cache_if_empty then Some (initialize [] n) else None
                | cs => Some (initialize cs n)
                end))
   else None.
+Definition load_cnf := load_cnf_with false.
 
 (* the two versions *)
 Definition step_fixed := cc_step false.
